@@ -1,6 +1,6 @@
 #!/usr/bin/env python3
 """tools/keepseed.py <candidate-dir> <seed-id> <detected_by comma list> [missed_by comma list] -- files a confirmed seeded change under /verif/seeded/<seed-id>/"""
-import json, os, shutil, sys
+import json, os, shutil, subprocess, sys
 cand, sid, det = sys.argv[1], sys.argv[2], [x for x in sys.argv[3].split(",") if x]
 missed = [x for x in (sys.argv[4].split(",") if len(sys.argv) > 4 else []) if x]
 dst = f"/verif/seeded/{sid}"
@@ -11,6 +11,9 @@ m = json.load(open(f"{cand}/meta.json"))
 m["confirmed"] = {"how": "tools/seedeval.sh in a scratch git worktree of /repo HEAD: patch applies, go build ./... ok, full ./x/... ./contrib/... suite passes with the change, demo test fails with the change and passes without it",
                   "detection_run": "patch applied to /repo, ./check <prop> quick, /repo reverted"}
 m["detected_by"] = det
+head = subprocess.check_output(["git", "-C", "/repo", "rev-parse", "--short", "HEAD"]).decode().strip()
+if subprocess.run(["git", "-C", "/repo", "apply", "--check", f"{cand}/patch.diff"], capture_output=True).returncode == 0:
+    m["applies_to_repo_commits"] = [head]
 m["missed_by"] = missed
 json.dump(m, open(f"{dst}/meta.json", "w"), indent=1)
 print("kept", dst)
